@@ -180,6 +180,12 @@ struct VarOptFamily {
   }
 };
 
+inline const char* varopt_union_result_key() { return "C19|varopt-union|get_result|decrease_k_by_1-swaps-with-unconstructed-gap-and-drops-a-constructed-slot|result-needs-marked-items-migrated-out-of-H"; }
+#if defined(VF_ASAN)
+extern "C" void __lsan_disable(void);
+extern "C" void __lsan_enable(void);
+#endif
+
 template <typename T>
 struct VarOptUnionFamily {
   using Kit = ItemKit<T>;
@@ -208,15 +214,41 @@ struct VarOptUnionFamily {
     return "var_opt_union::operator=(const var_opt_union&) does not compile for any T / allocator (std::swap(allocator_, other.allocator_) with a const argument): a union cannot be copy-assigned";
   }
 #endif
+  // get_result() copies the gadget and, when marked items have to be migrated, runs var_opt_sketch::decrease_k_by_1 on
+  // the copy; that function swaps with the unconstructed gap slot and drops a constructed slot off the end of the array
+  // (finding C19 varopt-union get_result). While that finding is listed as open the heap blocks the dropped std::string
+  // items own are kept out of LeakSanitizer's end-of-process report (they are allocated inside this call).
+  static Sk result_of(const Obj& u) {
+    vf::rand_seed(0x19);   // get_result() draws random numbers: the same state must give the same result for the same draws
+    bool hide = !Kit::tracks_bypass && vf::known_keys().count(varopt_union_result_key());
+#if defined(VF_ASAN)
+    if (hide) __lsan_disable();
+#endif
+    try {
+      CallTag ct("var_opt_union::get_result");
+      Sk r = u.get_result();
+#if defined(VF_ASAN)
+      if (hide) __lsan_enable();
+#endif
+      return r;
+    } catch (...) {
+#if defined(VF_ASAN)
+      if (hide) __lsan_enable();
+#endif
+      throw;
+    }
+  }
   static void observe(const Obj& u, std::ostream& os) {
-    auto r = [&] { LibScope ls; return u.get_result(); }();
+    // item errors raised while the RESULT is inspected and destroyed are consequences of what get_result() did to it: same tag
+    CallTag ct("var_opt_union::get_result");
+    auto r = result_of(u);
     VarOptFamily<T>::show(r, os);
     typename Kit::Serde sd;
     auto bytes = [&] { LibScope ls; return u.serialize(0, sd); }();
     os << " union:"; show_bytes(os, bytes.data(), bytes.size());
   }
   static void canon(const Obj&, std::ostream&) {}
-  static void query(Env&, const Obj& u, uint64_t seed) { LibScope ls; auto r = u.get_result(); auto r2 = r; (void)r2.get_n(); if (seed & 1) { ToStringScope ts; (void)u.to_string(); } }
+  static void query(Env&, const Obj& u, uint64_t seed) { CallTag ct("var_opt_union::get_result"); auto r = result_of(u); LibScope ls; auto r2 = r; (void)r2.get_n(); if (seed & 1) { ToStringScope ts; (void)u.to_string(); } }
 };
 
 // ---------------------------------------------------------------- EBPPS (unit weights, one k per case: see the report)
